@@ -13,14 +13,33 @@ timeout: 200
 */
 /*@unit
 name: parse_line
-define: U_PARSE_LINE, VERIF_CONF_ANNOT, VERIF_OWN_STRCMP, VERIF_OWN_STRCHR, VERIF_CONF_REBIND, VERIF_ROLE_CALLEE_register_context_state
+define: U_PARSE_LINE, VERIF_PWORD1_PRESENT, VERIF_CONF_ANNOT, VERIF_OWN_STRCMP, VERIF_OWN_STRCHR, VERIF_CONF_REBIND, VERIF_LOOKUP_MODEL, VERIF_CONF_PUSH_MODELS
 src: conf.c
 enforce: spifconf_parse_line
-replace: spiftool_chomp, spiftool_get_word, spiftool_get_pword, spifconf_shell_expand, spifconf_open_file, spiftool_temp_file, spifconf_register_context_state, spifconf_register_fstate, v_ctx_lookup
+replace: spifconf_shell_expand, spifconf_open_file
 backend: sat
-timeout: 400
-objbits: 9
-funcs: v_ctx_lookup, vhandler
+timeout: 900
+funcs: v_ctx_lookup, spifconf_register_context_state, spifconf_register_fstate
+*/
+/*@unit
+name: parse_line_preproc_again
+define: U_PARSE_LINE, U_PL_EXC, VERIF_PWORD1_PRESENT, VERIF_CONF_ANNOT, VERIF_OWN_STRCMP, VERIF_OWN_STRCHR, VERIF_CONF_REBIND, VERIF_LOOKUP_MODEL, VERIF_CONF_PUSH_MODELS
+src: conf.c
+enforce: spifconf_parse_line
+replace: spifconf_shell_expand, spifconf_open_file
+backend: sat
+timeout: 900
+quick: no
+*/
+/*@unit
+name: parse_line_bare_pct
+define: U_PARSE_LINE, VERIF_PWORD1_ABSENT, VERIF_CONF_ANNOT, VERIF_OWN_STRCMP, VERIF_OWN_STRCHR, VERIF_CONF_REBIND, VERIF_LOOKUP_MODEL, VERIF_CONF_PUSH_MODELS
+src: conf.c
+enforce: spifconf_parse_line
+replace: spifconf_shell_expand, spifconf_open_file
+backend: sat
+timeout: 900
+quick: no
 */
 #include "vprelude.h"
 #include "env_conf.h"
